@@ -32,8 +32,11 @@ let () =
   iter_lines (fun line ->
     match split_ws line with
     | [] -> ()
-    | op :: args ->
-      let a i = limbs_of_hex (List.nth args i) in
+    | op0 :: args ->
+      (* "<op>_i x n": the second operand is passed to the real module as a Lua integer (tobint -> frominteger) *)
+      let mixed = String.length op0 > 2 && String.sub op0 (String.length op0 - 2) 2 = "_i" in
+      let op = if mixed then String.sub op0 0 (String.length op0 - 2) else op0 in
+      let a i = if mixed && i = 1 then frominteger (z_of_hex (List.nth args 1)) else limbs_of_hex (List.nth args i) in
       let zi i = z_of_hex (List.nth args i) in
       let ni i = nat_of_int (int_of_string (List.nth args i)) in
       let bytes i = let s = List.nth args i in if s = "-" then [] else zlist_of_hexbytes s in
